@@ -107,6 +107,16 @@ def pat_forward_only(rank, size, pt):
     return {"out": r + x}
 
 
+def pat_same_payload(rank, size, pt):
+    """rank 0 ships the very same (structurally equal) array to two peers"""
+    x = _x(pt)
+    if rank == 0:
+        o = pt.staple_distributed_send(x * 2, 1, 70, stapled_to=x + 1)
+        return {"out": pt.staple_distributed_send(x * 2, 2, 71, stapled_to=o)}
+    r = pt.make_distributed_recv(src_rank=0, comm_tag=69 + rank, shape=(3,), dtype=F64)
+    return {"out": r * x - rank}
+
+
 def pat_silent_rank(rank, size, pt):
     """ranks 0 and 1 exchange one message each, the last rank computes locally only (no send, no receive)"""
     x = _x(pt)
@@ -229,7 +239,7 @@ def _pingpong(rounds):
 
 
 PATTERNS = {
-    "pingpong4": (_pingpong(4), (2,)), "pingpong5": (_pingpong(5), (2,)), "silent_rank": (pat_silent_rank, (3,)),
+    "pingpong4": (_pingpong(4), (2,)), "pingpong5": (_pingpong(5), (2,)), "silent_rank": (pat_silent_rank, (3,)), "same_payload": (pat_same_payload, (3,)),
     "single": (pat_single, (1,)), "exchange2": (pat_exchange2, (2,)), "ring": (pat_ring, (2, 3, 4)),
     "ring_2rounds": (pat_ring_2rounds, (2, 3)), "star": (pat_star, (2, 3, 4)), "chain": (pat_chain, (2, 3, 4)),
     "multi_send": (pat_multi_send, (2,)), "forward_only": (pat_forward_only, (3,)),
@@ -298,7 +308,7 @@ def generated_patterns(seed, n):
 QUICK = [("single", 1), ("exchange2", 2), ("ring", 2), ("ring", 3), ("star", 2), ("chain", 2), ("chain", 3),
          ("multi_send", 2), ("forward_only", 3), ("outputs_are_inputs", 2), ("materialized", 2), ("two_way_dependent", 2),
          ("ring_2rounds", 2), ("late_use_of_early_recv", 2), ("diamond", 3), ("three_rounds", 2),
-         ("three_rounds_one_way", 2), ("pingpong4", 2), ("silent_rank", 3)]
+         ("three_rounds_one_way", 2), ("pingpong4", 2), ("silent_rank", 3), ("same_payload", 3)]
 THOROUGH = QUICK + [("pingpong5", 2), ("star", 3), ("ring_2rounds", 3), ("chain", 4), ("ring", 4)]      # (star/4: > 4000 schedules, not confirmed within 25 min -- left out, stated in "outside")
 
 
